@@ -26,7 +26,7 @@ COLS = ["cvb", "cvb0", "cfb", "crb", "crf", "cni", "cnq", "cnd", "cbit", "cbit2"
 def generate(seed, tier):
     r = random.Random("%s/mode" % seed)
     want = [n for n in COLS if r.random() < 0.3]
-    want += [n for n in ("s", "n", "nd", "nf", "nu", "dt", "b", "so", "kw") if r.random() < 0.5]
+    want += [n for n in ("s", "n", "nd", "nf", "nu", "dt", "dts", "b", "so", "kw") if r.random() < 0.5]
     big = (tier == "thorough" and seed % 50 == 0)
     rec = _hist.generate_hist(
         ID, seed,
